@@ -202,7 +202,7 @@ func runMerge(base *storedTable, others []*storedTable, viaBlocks bool) (out *me
 
 var c05keys = []string{"a", "b", "c"}
 
-// branch edit of one key: 0 keep, 1 c1<-p, 2 c1<-q, 3 c2<-p, 4 remove, 5 c1<-p and c2<-p, 6 c1<-'' (key in base)
+// branch edit of one key: 0 keep, 1 c1<-p, 2 c1<-q, 3 c2<-p, 4 remove, 5 c1<-p and c2<-p, 6 c1<-” (key in base)
 //
 //	0 absent, 1 add (p,q), 2 add (q,q), 3 add (p,p), 4 add ('',q)  (key not in base)
 //
